@@ -651,9 +651,20 @@ class HeapInterp:
                 if len(vs) == 1:
                     label(vs.pop(), et if isinstance(op, ast.Eq) else ef, f"@eq:{cst.value}")
         elif isinstance(test, ast.Call) and isinstance(test.func, ast.Attribute) and test.func.attr in ("startswith", "endswith") \
-                and isinstance(test.func.value, ast.Name) and test.args and isinstance(test.args[0], ast.Constant):
-            lab = ("@sw:" if test.func.attr == "startswith" else "@ew:") + str(test.args[0].value)
-            label(test.func.value.id, et, lab)
+                and isinstance(test.func.value, ast.Name) and test.args:
+            cv = None
+            if isinstance(test.args[0], ast.Constant):
+                cv = test.args[0].value
+            else:
+                try:
+                    a0 = self.ev(test.args[0], dict(env), pc, fi)
+                    if a0.kind == "const" and isinstance(a0.val, str):
+                        cv = a0.val
+                except AnalysisError:
+                    cv = None
+            if cv is not None:
+                lab = ("@sw:" if test.func.attr == "startswith" else "@ew:") + str(cv)
+                label(test.func.value.id, et, lab)
         return et, ef
 
     # ------------------------------------------------------------------ iteration
@@ -728,6 +739,11 @@ class HeapInterp:
                     o.elem = joinv(o.elem, lx)
             return o
         if isinstance(v, (list, tuple, set, frozenset)):
+            if isinstance(v, (set, frozenset, list)) and 0 < len(v) <= 8 and all(isinstance(x, str) for x in v):
+                o = self.mktuple([self.lift(x, depth + 1) for x in sorted(v)])      # iterated element by element (precise per key)
+                if isinstance(v, (set, frozenset)):
+                    o.t = o.t | {"@setorder"}
+                return o
             if isinstance(v, tuple) and len(v) <= 8:
                 return self.mktuple([self.lift(x, depth + 1) for x in v])
             o = Obj("list")
@@ -750,6 +766,11 @@ class HeapInterp:
                 try:
                     return self.lift(self.repo.const(r[1], r[2]))
                 except NotConst:
+                    v = r[1].assigns.get(r[2])
+                    if isinstance(v, ast.Call):
+                        rr = self.repo.resolve_dotted(r[1], v.func)
+                        if rr and rr[0] == "ext" and rr[1] == "re.compile":
+                            return Obj("regex")
                     self.notes.append(f"module object {e.id} is not a constant")
                     return scalar()
             if r[0] == "func":
@@ -880,9 +901,19 @@ class HeapInterp:
 
     def e_JoinedStr(self, e, env, pc, fi):
         t = set()
+        parts = []
         for p in e.values:
             if isinstance(p, ast.FormattedValue):
-                t |= prov(self.ev(p.value, env, pc, fi))
+                v = self.ev(p.value, env, pc, fi)
+                t |= prov(v)
+                if v.kind == "const" and isinstance(v.val, (str, int)) and not isinstance(v.val, bool) and p.format_spec is None and p.conversion == -1 and parts is not None:
+                    parts.append(str(v.val))
+                else:
+                    parts = None
+            elif parts is not None:
+                parts.append(p.value)
+        if parts is not None:
+            return Obj("const", t, "".join(parts))       # every piece is a constant: fold
         return string(t)
 
     def e_FormattedValue(self, e, env, pc, fi):
@@ -1203,6 +1234,12 @@ class HeapInterp:
         fr = self.frames[-1] if self.frames else Frame(fi)
         if (k == "const" and isinstance(recv.val, str)) or k == "keyset":
             k = "str"
+        if recv.kind == "const" and isinstance(recv.val, str) and name in ("upper", "lower", "strip", "lstrip", "rstrip", "title", "capitalize") \
+                and all(x.kind == "const" for x in a):
+            try:
+                return Obj("const", recv.t, getattr(recv.val, name)(*[x.val for x in a]))
+            except Exception:
+                pass
         if k == "str" or (k == "scalar" and name in STR_METHODS):
             rp = prov(recv)
             if name in ("split", "splitlines", "rsplit", "partition", "rpartition"):
